@@ -162,4 +162,90 @@ theorem C02_source_ladder {σ R : Type} {X : Ext} {ops : Ops σ R} {P : Pres σ 
         refine T s r 0 _ [] _ ?_ ?_ ?_ ?_ ?_ ?_ <;> simp [List.lookup, selfV, sideV, domV, suiteV, hd, h0, hnd]
   · lad_eval
 
+/-- rungs 2 and 3 of the concrete model are the abstract `reorder` on the model's operations -/
+theorem C02_ladderReorder_eq_reorder (asS asR : List Int → List Nat) (h : List Nat → Int) (fl : LadderFlags)
+    (src ref : Side) (rung : Nat) (last : C02.Outcome) (tr : List (Msg C02.Outcome)) :
+    ladderReorder asS asR h fl src ref rung last =
+      forget (reorder (concOps asS asR h) fl (true, src) (false, ref) rung last tr) := by
+  obtain ⟨nr, no, nd⟩ := fl
+  cases nr
+  · cases no
+    · cases hB : sortPoints asS src.tol (stripOrphans asS src.f) <;>
+        cases hD : sortPoints asR ref.tol (stripOrphans asR ref.f) <;>
+        simp [ladderReorder, reorder, permute, permuteSide, finish, forget, hB, hD, concOps_run, concOps_ok,
+          concOps_structured, concOps_strip, concOps_sortPoints, concOps_sortCells]
+      all_goals (split <;> simp_all [forget])
+    · cases hB : sortPoints asS src.tol src.f <;> cases hD : sortPoints asR ref.tol ref.f <;>
+        simp [ladderReorder, reorder, permute, permuteSide, finish, forget, hB, hD, concOps_run, concOps_ok,
+          concOps_structured, concOps_strip, concOps_sortPoints, concOps_sortCells]
+      all_goals (split <;> simp_all [forget])
+  · simp [ladderReorder, reorder, finish, forget]
+
+/-- the concrete ladder model `C02.ladder` (FcModel/Ladder.lean; used by C02, C03, C17, C19) is the abstract ladder run on
+    the model's own operations (`concOps`) -/
+theorem C02_ladder_eq_ladderAbs (asS asR : List Int → List Nat) (h : List Nat → Int) (fl : LadderFlags)
+    (srcF refF : MeshFields) :
+    ladder asS asR h fl srcF refF =
+      forget (ladderAbs (concOps asS asR h) fl (true, ⟨srcF, meshTolOf srcF.mesh, false⟩)
+        (false, ⟨refF, meshTolOf refF.mesh, false⟩)) := by
+  have hre := C02_ladderReorder_eq_reorder asS asR h fl
+  let S : Side := ⟨srcF, meshTolOf srcF.mesh, false⟩
+  let R : Side := ⟨refF, meshTolOf refF.mesh, false⟩
+  have hSf : S.f = srcF := rfl
+  have hRf : R.f = refF := rfl
+  show ladder asS asR h fl srcF refF = forget (ladderAbs (concOps asS asR h) fl (true, S) (false, R))
+  simp only [ladder, ladderAbs]
+  by_cases h0 : (runComparison S R).domainEq = true
+  · have h0' : (concOps asS asR h).ok ((concOps asS asR h).run (true, S) (false, R)) = true := h0
+    rw [if_pos h0, if_pos h0']; rfl
+  · have h0' : ¬ (concOps asS asR h).ok ((concOps asS asR h).run (true, S) (false, R)) = true := h0
+    rw [if_neg h0, if_neg h0']
+    by_cases hc : (decide (srcF.mesh.dim ≠ refF.mesh.dim) && !fl.noDimMatch) = true
+    · have hc' : (decide ((concOps asS asR h).dim (true, S) ≠ (concOps asS asR h).dim (false, R)) && !fl.noDimMatch)
+          = true := by simpa [concOps_dim, hSf, hRf] using hc
+      rw [if_pos hc, if_pos hc']
+      simp only [concOps_extend, concOps_dim, hSf, hRf]
+      cases he1 : extendDim (max srcF.mesh.dim refF.mesh.dim) srcF with
+      | none => cases extendDim (max srcF.mesh.dim refF.mesh.dim) refF <;> rfl
+      | some sf =>
+        cases he2 : extendDim (max srcF.mesh.dim refF.mesh.dim) refF with
+        | none => rfl
+        | some rf =>
+          simp only []
+          by_cases h1 : (runComparison ⟨sf, meshTolOf srcF.mesh, false⟩ ⟨rf, meshTolOf refF.mesh, false⟩).domainEq = true
+          · have h1' : (concOps asS asR h).ok ((concOps asS asR h).run (true, ⟨sf, meshTolOf srcF.mesh, false⟩)
+                (false, ⟨rf, meshTolOf refF.mesh, false⟩)) = true := h1
+            rw [if_pos h1, if_pos h1']; rfl
+          · have h1' : ¬ (concOps asS asR h).ok ((concOps asS asR h).run (true, ⟨sf, meshTolOf srcF.mesh, false⟩)
+                (false, ⟨rf, meshTolOf refF.mesh, false⟩)) = true := h1
+            rw [if_neg h1, if_neg h1']
+            exact hre _ _ _ _ _
+    · have hc' : ¬ (decide ((concOps asS asR h).dim (true, S) ≠ (concOps asS asR h).dim (false, R)) && !fl.noDimMatch)
+          = true := by simpa [concOps_dim, hSf, hRf] using hc
+      rw [if_neg hc, if_neg hc']
+      exact hre _ _ _ _ _
+
+/-- **the translated ladder computes FcModel/Ladder.lean's `ladder`**: under `LadderExt` for the model's own operations,
+    running the translated `__call__` on a comparator holding the two data sets returns the suite `o` of
+    `ladder … = .done rung o` (with some final state and messages, which `C02_source_ladder` names), and raises exactly
+    when the model says `.raised`. -/
+theorem C02_source_ladder_model {X : Ext} {asS asR : List Int → List Nat} {h : List Nat → Int}
+    {P : Pres (Bool × Side) C02.Outcome} {fl : LadderFlags} {selV cbV rcbV smV : Val}
+    (hX : LadderExt X (concOps asS asR h) P fl selV cbV rcbV smV)
+    (selArg cbArg : Val) (hselA : OrDefault X selArg "closure#0" selV)
+    (hcbA : OrDefault X cbArg "DefaultFieldComparisonCallback" cbV) (srcF refF : MeshFields) :
+    match ladder asS asR h fl srcF refF with
+    | .done _ o => ∃ s' r' tr, Gen.c02oLadderCallSrc.runSelf X
+        [selfV (concOps asS asR h) P fl (true, ⟨srcF, meshTolOf srcF.mesh, false⟩)
+          (false, ⟨refF, meshTolOf refF.mesh, false⟩), selArg, cbArg, rcbV] =
+          .ok (suiteV (concOps asS asR h) P o, tr, selfV (concOps asS asR h) P fl s' r')
+    | .raised => ∃ e, Gen.c02oLadderCallSrc.runSelf X
+        [selfV (concOps asS asR h) P fl (true, ⟨srcF, meshTolOf srcF.mesh, false⟩)
+          (false, ⟨refF, meshTolOf refF.mesh, false⟩), selArg, cbArg, rcbV] = .raise e := by
+  rw [C02_source_ladder hX selArg cbArg hselA hcbA, C02_ladder_eq_ladderAbs]
+  cases ladderAbs (concOps asS asR h) fl (true, ⟨srcF, meshTolOf srcF.mesh, false⟩)
+      (false, ⟨refF, meshTolOf refF.mesh, false⟩) with
+  | done rung o s' r' tr => exact ⟨s', r', _, rfl⟩
+  | raised e => exact ⟨e, rfl⟩
+
 end Fc
